@@ -20,7 +20,7 @@ RULE = ("inputs: every readable+writable example file, generated LASFiles (first
         "writer configurations over version {1.2, 2} x wrap x len_numeric_field {None, -1, 14, 20} x spacer x lhs_spacer x "
         "data_width {40, 79, 200} x header_width x data_section_header x mnemonics_header, both members of a pair using the same "
         "fmt / column_fmt. distinct = distinct (input, configuration pair); non-trivial = pair whose two texts differ and whose "
-        "input has >= 2 ~Well items beyond STRT/STOP/STEP/NULL Added later: inputs read with each mnemonic_case, short ~Well descriptions, wide tables (6..63 curves), column formats keyed on the last column x header style, a date-like text curve (witness of a known finding). Hunter round 2: a VERS / WRAP / DLM line stated twice, text samples with '#' inside ('47#') from wrapped, comma-delimited and plain sources.")
+        "input has >= 2 ~Well items beyond STRT/STOP/STEP/NULL Added later: inputs read with each mnemonic_case, short ~Well descriptions, wide tables (6..63 curves), column formats keyed on the last column x header style, a date-like text curve (witness of a known finding). Hunter round 2: a VERS / WRAP / DLM line stated twice, text samples with '#' inside ('47#') from wrapped, comma-delimited and plain sources. Round 8: decimal-number units that are widest in one layout only; duplicated steering lines read with mnemonic_case lower.")
 ASSUMPTIONS = [
     "inputs whose re-read fails under BOTH configurations are not comparable and are counted (C11 judges re-readability)",
     "VERS and WRAP items are excluded from the comparison, as the statement says",
